@@ -1,6 +1,7 @@
 package main
 
 import (
+	"os"
 	"fmt"
 	"strings"
 )
@@ -296,7 +297,7 @@ func (ex *Exec) bytesLess(a, b []*Term, orEq bool) *Term {
 // bytesCompare returns an Int term in {-1,0,1}.
 func (ex *Exec) bytesCompare(a, b []*Term) *Term {
 	f := ex.tf
-	if len(a) == 42 && len(b) == 42 && ex.hexExp != nil {
+	if len(a) == 42 && len(b) == 42 && ex.hexExp != nil && !hexOrderPrecise {
 		if ea, ok := ex.hexExp[termsKey(a)]; ok {
 			if eb, ok := ex.hexExp[termsKey(b)]; ok {
 				lt := ex.bechLess(ea, eb, false)
@@ -412,8 +413,12 @@ func (ex *Exec) tryValEq(a, b Value) (t *Term, ok bool) {
 	return ex.valEq(a, b), true
 }
 
+// hexOrderPrecise: compare two EIP-55 address strings character by character (letter case from the keccak model)
+// instead of abstracting their order to an arbitrary total order.
+var hexOrderPrecise = os.Getenv("GOSYM_HEX_RANK") == ""
+
 func (ex *Exec) strLess(a, b Str, orEq bool) *Term {
-	if a.Enc != nil && b.Enc != nil && a.Enc.Kind == "hex" && b.Enc.Kind == "hex" {
+	if a.Enc != nil && b.Enc != nil && a.Enc.Kind == "hex" && b.Enc.Kind == "hex" && !hexOrderPrecise {
 		// order of two checksummed addresses: abstracted to an arbitrary strict total order (rank) over the address
 		return ex.bechLess(a.Enc, b.Enc, orEq)
 	}
